@@ -357,6 +357,9 @@ def harnesses(tier):   # noqa: F811
 def stub_size_in_base(ex, nc, args):
     """BigInt::size_in_base(x, base) = 1 + floor(bits(x) * ln 2 / ln base): by the arithmetic of that formula it is the
     true digit count or one more (never less), and exactly 1 for x = 0.  Both possibilities are explored."""
+    if ex.env.get('force_intdigits') is not None:
+        # the step harness fixes the estimate (the state it specifies assumes value < base^intdigits <= base^2 * value)
+        return ex.env['force_intdigits']
     x = deref_all(args[0]).fields[0]
     base = args[1]
     if ex.branch(n_eq(x, 0), 'int part is zero'):
@@ -621,25 +624,48 @@ def loop_head_of(prog):
 
 
 class DigitState:
-    """the specification of the state after n iterations, for concrete (sign, intdigits I, n, leading zeros z)"""
+    """the specification of the state after n iterations, for concrete (sign, intdigits I, n, leading zeros z).
+    The value is *defined* from the digits produced so far and the current remainder f in [0,1):
+        |v| = (d_0 d_1 ... d_(n-1) . f) * base^(I - n),      c_k = (d_k ... d_(n-1) . f) / base^(n-k)
+    which is the same set of states as "any value with these first n digits" but needs no chain of floor constraints.
+    `fixed` = (count, digit): the first `count` digits are that concrete digit (very long integer parts)."""
 
-    def __init__(self, ex, I_, base, neg, Ic, n, z):
+    def __init__(self, ex, I_, base, neg, Ic, n, z, fixed=(0, 0)):
         self.base, self.neg, self.Ic, self.n, self.z = base, neg, Ic, n, z
-        V = I_.real('v')
-        ex.assume(V >= 0)
-        ex.assume(V < base ** Ic)
+        nfix, dfix = fixed
+        nfix = min(nfix, n)
+        f = I_.real('f')
+        ex.assume(z3.And(f >= 0, f < 1))
+        self.f = f
+        self.d = []
+        for i in range(n):
+            if i < nfix:
+                self.d.append(z3.IntVal(dfix))
+            else:
+                di = I_.int('d%d' % i)
+                ex.assume(z3.And(di >= 0, di < base))
+                self.d.append(di)
+        # c_k, built from the least significant end: c_n = f, c_k = (d_k + c_(k+1)) / base
+        self.c = [None] * (n + 1)
+        self.c[n] = f
+        # only the remainders that the code can see are materialised as terms (k >= Ic, plus c_n); the rest follow
+        lo = min(n, Ic)
+        for k in range(n - 1, lo - 1, -1):
+            self.c[k] = (z3.ToReal(self.d[k]) + self.c[k + 1]) / base
+        # |v|
+        acc = z3.RealVal(0)
+        fixed_val = 0
+        for i in range(nfix):
+            fixed_val = fixed_val * base + dfix
+        acc = z3.RealVal(fixed_val)
+        for i in range(nfix, n):
+            acc = acc * base + z3.ToReal(self.d[i])
+        V = (acc + f) * zreal(Fraction(base) ** (Ic - n))
+        self.V = V
         if Ic >= 2:
-            ex.assume(V >= zreal(Fraction(base) ** (Ic - 2)))
+            ex.assume(V >= zreal(Fraction(base) ** (Ic - 2)))     # digit count over-estimated by at most one
         if neg:
             ex.assume(V > 0)
-        self.V = V
-        self.d = [I_.int('d%d' % i) for i in range(n)]
-        self.c = [V / (base ** Ic)]
-        for i in range(n):
-            ex.assume(z3.And(self.d[i] >= 0, self.d[i] < base))
-            self.c.append(self.c[i] * base - z3.ToReal(self.d[i]))
-        for ci in self.c:
-            ex.assume(z3.And(ci >= 0, ci < 1))
         for i in range(min(z, n)):
             ex.assume(self.d[i] == 0)
         if z < n:
@@ -648,9 +674,9 @@ class DigitState:
         # small-period shortcut would have returned) is NOT assumed - it makes every query a hard mixed-integer problem -
         # but used to shape counterexamples (prefer): the pre-state over-approximates the reachable ones
         seen = self.seen_cursors()
-        for i in range(len(seen)):
-            for j in range(i + 1, len(seen)):
-                ex.assume(seen[i] != seen[j])
+        for i_ in range(len(seen)):
+            for j_ in range(i_ + 1, len(seen)):
+                ex.assume(seen[i_] != seen[j_])
 
     def seen_cursors(self):
         return [self.c[i] for i in range(self.Ic, self.n)] if self.n > self.Ic else []
@@ -670,11 +696,11 @@ class DigitState:
         seen.items = [bigrat(x) for x in self.seen_cursors()]
         cs = self.chars()
         buf = ''.join(chr(c) for c in cs) if all(is_conc(c) for c in cs) else SymStr(cs)
-        dg = variant(ex, 'Digits', 'Default') if mode == 'Default' else variant(ex, 'Digits', 'Digits', [int(mode)])
+        dg = variant(ex, 'Digits', mode) if mode in ('Default', 'FullInt') else variant(ex, 'Digits', 'Digits', [int(mode)])
         v_signed = -self.V if self.neg else self.V
-        return {'self': ref(bigrat(v_signed)), 'base': b, 'digits': dg, 'sign': bool(self.neg), 'rational': bigrat(self.V),
-                'intdigits': self.Ic, 'buf': buf, 'zero': bigrat(Fraction(0)), 'one': bigint(1), 'ten': bigint(b),
-                'ten_rational': bigrat(Fraction(b)), 'cursor': bigrat(self.c[self.n]), 'n': self.n, 'only_zeros': self.z >= self.n,
+        self.entry_args = [ref(bigrat(v_signed)), b, dg]
+        # loop state only: everything loop-invariant (sign, rational, intdigits, constants, hoisted values) comes from the real prologue
+        return {'buf': buf, 'cursor': bigrat(self.c[self.n]), 'n': self.n, 'only_zeros': self.z >= self.n,
                 'zeros': min(self.z, self.n), 'placed_decimal': self.n > self.Ic, 'seen_remainders': seen}
 
 
@@ -687,8 +713,13 @@ def text_chars(text):
     return None
 
 
+def _compress_runs(t):
+    import re as _r
+    return _r.sub(r'([0-9a-z])\1{15,}', lambda m: '%s{%d}' % (m.group(1), len(m.group(0))), t)
+
+
 def numeral_obligations(chars, exact, V, b):
-    shown = ''.join(chr(c) if is_conc(c) else 'd' for c in chars)
+    shown = _compress_runs(''.join(chr(c) if is_conc(c) else 'd' for c in chars))
     p = parse_numeral([c for c in chars if not (is_conc(c) and c == ord('-'))] if False else chars, b)
     obs = [('[%s] every digit is a digit of base %d' % (shown, b), p['valid'])]
     if p['block_len'] > 0:
@@ -714,15 +745,17 @@ class DigitLoopStep(Harness):
     max_paths = 60000
     _concrete = None
 
-    def __init__(self, base, modes, Ics, N, zs=None, max_block=9, tag=''):
+    def __init__(self, base, modes, Ics, N, zs=None, max_block=9, tag='', ns=None, fixed=(0, 0)):
         self.base, self.modes, self.Ics, self.N, self.zs, self.max_block = base, modes, Ics, N, zs, max_block
+        self.ns, self.fixed = ns, fixed
         self.name = 'bigrat.to_digits_impl.loop_step.base%d.int%s%s' % (base, '_'.join(str(i) for i in Ics), '.' + tag if tag else '')
         self.entry_name = 'BigRat::to_digits_impl: one iteration of its loop from the loop head'
         self.describe = ('one real iteration of the long-division loop from the specified state "n digits produced" (n <= %d, integer-digit '
                          'estimates %s, any number of leading zeros, either sign, digit budgets %s, base %d): it returns a numeral that denotes the '
                          'value (exact / recurring / truncated), or arrives at the loop head in the specified state "n+1 digits produced"') % (
             N, Ics, modes, base)
-        self.bounds = ['at most %d digits produced before the iteration' % N, 'intdigits in %s' % (Ics,), 'digit budgets %s' % (modes,),
+        self.bounds = ['digits produced before the iteration: %s' % (ns if ns is not None else 'at most %d' % N), 'intdigits in %s' % (Ics,), 'digit budgets %s' % (modes,),
+                       ('the first %d digits are the digit %d' % fixed) if fixed[0] else 'all digits symbolic',
                        'recurring blocks reported by the small-period shortcut: at most %d digits' % max_block]
         self.assumptions = ['pre-state = specification of long division after n steps (digits d_i = floor(base * c_i), remainders c_i in [0,1), '
                             'remembered remainders pairwise distinct; an over-approximation of the reachable states); reachability of the pre-state is established by the base-case harness '
@@ -734,21 +767,23 @@ class DigitLoopStep(Harness):
         mode = self.modes[ex.choose(len(self.modes), 'digits mode')]
         neg = ex.choose(2, 'negative')
         Ic = self.Ics[ex.choose(len(self.Ics), 'intdigits')]
-        n = ex.choose(self.N + 1, 'digits produced so far')
-        zopts = list(range(n + 1)) if self.zs is None else sorted(set(min(zz, n) for zz in self.zs) | {n})
+        ns = self.ns if self.ns is not None else list(range(self.N + 1))
+        n = ns[ex.choose(len(ns), 'digits produced so far')]
+        zopts = list(range(n + 1)) if self.zs is None else sorted(set(min(zz, n) for zz in self.zs) | ({n} if self.fixed[0] == 0 else set()))
         z = zopts[ex.choose(len(zopts), 'leading zero digits')]
         ex.env['max_block'] = self.max_block
-        st = DigitState(ex, I, b, neg, Ic, n, z)
+        st = DigitState(ex, I, b, neg, Ic, n, z, fixed=self.fixed)
         # the previous iteration did not run out of budget (it would have returned): (n-1) - zeros <= max(intdigits, ndigits)
-        ndig = 6 if mode == 'Default' else Ic + int(mode)
+        ndig = 6 if mode == 'Default' else (1000 if mode == 'FullInt' else Ic + int(mode))
         if n >= 1 and (n - 1) - min(z, n - 1) > max(Ic, ndig):
             ex.assume(z3.BoolVal(False))
         fn, head = loop_head_of(ex.prog)
+        ex.env['force_intdigits'] = Ic
         return [fn, head, st.locals(ex, mode)], {'st': st, 'mode': mode}
 
     def entry(self, ex, args, ctx):
         fn, head, loc = args
-        kind, r = ex.exec_loop_entry(fn, head, locals_by_name=loc)
+        kind, r = ex.exec_loop_entry(fn, head, locals_by_name=loc, from_entry_args=ctx['st'].entry_args)
         ctx['kind'] = kind
         return Tup([kind, r]) if kind == 'return' else r
 
@@ -812,6 +847,13 @@ class DigitLoopStep(Harness):
         c = Harness.case(self, ctx, vals, label)
         st = ctx['st']
         c['inputs'].update({'mode': ctx['mode'], 'base': st.base, 'negative': bool(st.neg), 'intdigits': st.Ic, 'n': st.n, 'z': st.z})
+        # the value the state describes: (digits . f) * base^(I - n)
+        acc = Fraction(0)
+        for i in range(st.n):
+            di = c['inputs'].get('d%d' % i)
+            acc = acc * st.base + (int(di) if di is not None else self.fixed[1])
+        v = (acc + Fraction(c['inputs'].get('f', 0))) * Fraction(st.base) ** (st.Ic - st.n)
+        c['inputs']['v'] = '%d/%d' % (v.numerator, v.denominator)
         return c
 
     def prefer(self, ctx):
@@ -827,7 +869,7 @@ class DigitLoopStep(Harness):
             v = -v
         m = inputs['mode']
         return [{'mode': 'rat_to_string', 'fn': 'to_string', 'v': '%d/%d' % (v.numerator, v.denominator), 'base': int(inputs['base']),
-                 'digits': 'FullInt' if m == 'Default' else str(m)}] + (
+                 'digits': m if m in ('Default', 'FullInt') else str(m)}] + (
             [{'mode': 'query', 'text': frac_text(v)}] if m == 'Default' and int(inputs['base']) == 10 else [])
 
     def judge(self, inputs, label, obs):
@@ -919,10 +961,13 @@ def harnesses(tier):   # noqa: F811
     hs.append(DigitLoopBase(10))
     if tier == 'quick':
         hs += [DigitLoopStep(10, ['Default', '2'], [1], 8, zs=[0, 1]), DigitLoopStep(10, ['Default', '2'], [2], 8, zs=[0, 1]),
-               DigitLoopStep(10, ['12'], [1], 13, zs=[0], tag='deep')]
+               DigitLoopStep(10, ['12'], [1], 13, zs=[0], tag='deep'),
+               DigitLoopStep(10, ['FullInt'], [1002], 1003, zs=[0], ns=[999, 1000, 1001, 1002], fixed=(995, 1), tag='long')]
     else:
         hs += [DigitLoopBase(2), DigitLoopBase(16)]
         for Ic in (1, 2, 3):
             hs.append(DigitLoopStep(10, ['Default', '0', '3', '12'], [Ic], 14))
-        hs += [DigitLoopStep(2, ['Default', '2'], [1, 2], 10), DigitLoopStep(16, ['Default', '2'], [1, 2], 5, max_block=4)]
+        hs += [DigitLoopStep(2, ['Default', '2'], [1, 2], 10), DigitLoopStep(16, ['Default', '2'], [1, 2], 5, max_block=4),
+               DigitLoopStep(10, ['FullInt'], [1002], 1003, zs=[0], ns=[999, 1000, 1001, 1002], fixed=(995, 1), tag='long'),
+               DigitLoopStep(10, ['FullInt'], [1001, 1003], 1004, zs=[0], ns=[998, 999, 1000, 1001, 1002, 1003], fixed=(994, 7), tag='long2')]
     return hs
